@@ -53,7 +53,7 @@ class BasePickerModel(ABC):
             **kwargs,
             overlap_depth=[int(d) for d in _depth],
             # dask parameters
-            depth=[int(d) for d in _depth],
+            depth=tuple(int(d) for d in _depth),  # NOTE: a list means one depth per array
             trim=False,
             boundary=boundary,
             dtype=object,
